@@ -19,7 +19,9 @@ pub struct Clock {
 impl Clock {
     pub fn new(r: &mut Rng) -> Self {
         // around calendar edges: end of Feb in a leap year, end of year, plain day
-        let bases = [1_709_251_190i64 /* 2024-02-29 23:59:50 */, 1_735_689_590 /* 2024-12-31 23:59:50 */, 1_700_000_000, 1_711_843_195 /* 2024-03-30 23:59:55 */];
+        let bases = [1_709_251_190i64 /* 2024-02-29 23:59:50 */, 1_735_689_590 /* 2024-12-31 23:59:50 */, 1_700_000_000, 1_711_843_195 /* 2024-03-30 23:59:55 */,
+                     1_718_447_390 /* 2024-06-15 10:29:50: half-hour and quarter-hour edges, where zones with such offsets have their UTC hour boundary */,
+                     1_718_446_490 /* 10:14:50 */, 1_718_448_290 /* 10:44:50 */];
         Clock { epoch: *r.pick(&bases) + r.below(20) as i64, small: false }
     }
     /// mostly stands still or moves by seconds; sometimes jumps over a minute/hour/day boundary
@@ -28,7 +30,7 @@ impl Clock {
             0..=9 => 0,
             10..=14 => 1,
             15 => 2 + r.below(5) as i64,
-            16 => 60,
+            16 => *r.pick(&[60i64, 60, 900, 1800, 2700]),
             17 => 3600,
             18 => 86_400,
             _ => 86_400 * 31,
@@ -176,6 +178,11 @@ fn cfg_line(rot: &Option<String>, append: bool, cap: Option<u64>, symlink: bool,
 
 pub fn gen_hist(o: &Opts, r: &mut Rng, k: u64, tier: &str) -> Vec<String> {
     let mut c = vec![format!("CASE flw {} {}{k}", o.prop, ["", "bl", "bf", "ba", "bb"][o.bg as usize])];
+    if o.prop == "C09" && r.chance(2, 3) {
+        // zones with an offset that is not a whole number of hours (and the extremes): fixed-offset
+        // POSIX strings, no dependence on the zone database
+        c.push(format!("NOTE tz {}", r.pick_s(&["<+0530>-5:30", "<-0330>3:30", "<+0545>-5:45", "<+14>-14", "<-12>12", "<+0845>-8:45", "<-0930>9:30"])));
+    }
     let naming = *r.pick(o.namings);
     let no_rot = o.ext && r.chance(1, 3) || (o.prop == "C06" && r.chance(1, 8));
     let (spec, has_suffix) = gen_spec(r, naming);
